@@ -223,4 +223,23 @@ ShallowEqualIgnoring(N, a, b, ign) ==
             = {v \in NodeValue(N, b, "exact").attrs : <<v[1], v[2]>> \notin ign}
     ELSE NodeValue(N, a, "exact") = NodeValue(N, b, "exact")
 
+
+\* ---- serialisation with a normaliser (serialize_xml_*_with_normalizer, tokens(.., normalizer)) ----
+\* A normaliser is a total function on strings, applied to character data and attribute values BEFORE they are
+\* escaped: the output is the serialisation of the tree whose values were normalised.  NormF is the one the harness
+\* plugs in (ClassNormalizer): ordinary characters become ones that need escaping, one becomes two.
+NormF(c) == CASE c = 120 -> <<60>> [] c = 233 -> <<38>> [] c = 128512 -> <<93>> [] c = 121 -> <<93, 93>> [] OTHER -> <<c>>
+RECURSIVE NormStr(_)
+NormStr(t) == IF t = <<>> THEN <<>> ELSE NormF(Head(t)) \o NormStr(Tail(t))
+NormForest(N) == [x \in 1..Len(N) |-> IF N[x].k \in {"text", "attr"} THEN [N[x] EXCEPT !.t = NormStr(@)] ELSE N[x]]
+\* the crate also hands namespace names in declarations to the normaliser; the law is stated where that changes nothing
+\* (namespace names NormF leaves alone), and where the normalised xml:id values are still distinct
+NormStableUris == {"", "u1", "u2", "u3", XmlNs, "u v", "u\"q", "a<b", "t\tb", "l\nf", "c\rr", "u&amp;v"}
+NormJudgeable(N, top) ==
+    \* (anywhere in the forest: a subtree is written with the declarations it inherits)
+    /\ \A x \in 1..Len(N) : N[x].k = "nsn" => N[x].u \in NormStableUris
+    /\ \A x, z \in Subtree(N, top) :
+          (x # z /\ N[x].k = "attr" /\ N[z].k = "attr" /\ N[x].ns = XmlNs /\ N[z].ns = XmlNs /\ N[x].ln = "id" /\ N[z].ln = "id")
+              => NormStr(N[x].t) # NormStr(N[z].t)
+
 =============================================================================
